@@ -182,6 +182,11 @@ impl Local {
 #[cfg(arc_swap_verif)]
 impl Slots {
     /// (control, slot, active_addr, named addresses) read without going through the engine.
+    /// The hand-over envelope this node currently owns (read without going through the engine).
+    pub(super) fn verif_space_offer(&self) -> usize {
+        self.space_offer.peek() as usize
+    }
+
     pub(super) fn verif_words(&self) -> (usize, usize, usize, [(&'static str, usize); 5]) {
         (
             self.control.peek(),
